@@ -34,6 +34,10 @@ func (p *Prover) Init(curve *math.Curve, msgLen int, thresholdPK []byte, parties
 		return err
 	}
 
+	if len(tpk.PublicKeys) < len(parties) {
+		return fmt.Errorf("%d parties but only %d public keys", len(parties), len(tpk.PublicKeys))
+	}
+
 	p.publicKeysOfParties = make(map[uint16]PK)
 
 	for i, party := range parties {
